@@ -127,6 +127,20 @@ def run(chk, prog):
         elif any(y.t == "unquote" and y.v.t == "splice" and y.v.v.t == "sym" and y.v.v.v.startswith("restore")
                  for b in body for y in b.walk()):
             cleanup = lambda y: y.t == "unquote" and y.v.t == "splice" and y.v.v.t == "sym" and y.v.v.v.startswith("restore")   # noqa
+        # a macro that has a cleanup to run must see every way its body can end: the mask has to admit all the
+        # terminating signals (what the letter t stands for: error and user0-4); a body left by (signal 0 ...) - which is
+        # what `return` to an enclosing prompt does - otherwise goes past the macro and the cleanup never runs
+        if cleanup is not None:
+            n += 1
+            chk.instance(rule)
+            missing = sorted(letters["t"] - statuses)
+            if missing:
+                chk.violation(rule, "boot.janet", name, "mask:" + mask, "%s:%d" % (BOOT, f.line),
+                              "%s runs a cleanup form after its body but creates the body's fiber with mask :%s, which does not catch %s: a body "
+                              "that ends with one of those signals (`return` to an enclosing prompt raises user0) leaves through the macro "
+                              "without the cleanup" % (name, mask, ", ".join(":" + m for m in missing)))
+            else:
+                chk.ok(rule, "%s: mask :%s catches every terminating signal before the cleanup" % (name, mask))
         for (iff, op, kw) in tests:
             n += 1
             chk.instance(rule)
